@@ -220,6 +220,12 @@ def generate(seed, mode):
                 ops.append({'op': 'replacereg', 'r': o.randrange(nR), 'v': o.randrange(len(vals)), 'key': 0 if o.random() < 0.6 else o.randrange(64), 'k': k})
                 ops.append({'op': 'probe', 'k': k})
                 continue
+            if o.random() < 0.03:
+                # fault `address-reuse` for provided interfaces: a short-lived equal-named twin of a provided interface is used
+                # for lookups, dropped and collected; a brand-new, unrelated interface takes its address (if the allocator plays
+                # along) and is looked up next, with no change of the registry in between
+                ops.append({'op': 'pchurn', 'key': o.randrange(64), 'r': o.randrange(nR), 'k': k})
+                continue
             if shape in ('chain', 'dynamic', 'subs') and o.random() < 0.03:
                 ops.append({'op': 'regen', 'r': o.randrange(nR), 'v': o.randrange(len(vals)), 'key': 0 if o.random() < 0.6 else o.randrange(64), 'k': k})
                 ops.append({'op': 'probe', 'k': k})
@@ -1824,6 +1830,44 @@ def execute(program, ctx, mode):
                 ctx.log(step, 'odecl', op['o'] % nobs, op['xs'], bool(op.get('also')))
                 opk = None
                 mutated = False
+            elif name == 'pchurn':
+                r = op['r'] % nR
+                fk = W['keypool'][op['key'] % len(W['keypool'])]
+                pi_ = fk['p'] % (nP + 1)
+                if not alive[r] or pi_ >= nP:
+                    continue
+                specs = key_specs(fk)
+                nm = NAMES[fk['n'] % 3]
+                T = InterfaceClass('P%d' % pi_, tuple(P[b] for b in W['pifaces'][pi_]) or (Interface,), {}, __module__='zisim.r')
+                a_twin = (regs[r].lookup(specs, T, nm), regs[r].lookupAll(specs, T), regs[r].subscriptions(specs, T))
+                a_orig = (regs[r].lookup(specs, P[pi_], nm), regs[r].lookupAll(specs, P[pi_]), regs[r].subscriptions(specs, P[pi_]))
+                if not (same(a_twin[0], a_orig[0]) and list(a_twin[1]) == list(a_orig[1]) and list(a_twin[2]) == list(a_orig[2])):
+                    for pp_ in sorted(props):
+                        ctx.violation(pp_, 'twin-provided', '%s|lookup|equal-named-provided-objects-answer-differently' % pp_, {'r': r})
+                regs[r].lookup(specs, T, nm)           # (the twin is what the registry saw last)
+                addr = id(T)
+                del T
+                gc.collect()
+                ctx.fault('drop')
+                ctx.fault('gc')
+                misses = []
+                Q = None
+                for i_ in range(40):
+                    Q = InterfaceClass('Q%d_%d' % (step, i_), (Interface,), {}, __module__='zisim.r')
+                    if id(Q) == addr:
+                        ctx.fault('address-reuse')
+                        break
+                    misses.append(Q)
+                got = (regs[r].lookup(specs, Q, nm), tuple(regs[r].lookupAll(specs, Q)), list(regs[r].subscriptions(specs, Q)),
+                       regs[r].lookup1(specs[0], Q, nm) if len(specs) == 1 else None)
+                if got != (None, (), [], None):
+                    for pp_ in sorted(props):
+                        ctx.violation(pp_, 'fresh-provided', '%s|lookup|brand-new-provided-interface-has-an-answer' % pp_,
+                                      {'r': r, 'got': repr(got)[:200]})
+                del misses, Q
+                ctx.probe('provided-interface-churn')
+                ctx.log(step, 'pchurn', r, pi_)
+                continue
             elif name == 'replacereg':
                 withsub = [x for x in range(nR) if alive[x] and any(x in rb[y] for y in range(nR) if alive[y])]
                 if not withsub:
